@@ -458,6 +458,22 @@ def run_case(case):
             violations.append({'mechanism': 'c17:specialisation-not-identical',
                                'msg': 'two exception classes whose hashes collide (metaclass '
                                       '__hash__) are confused: checks %s' % (answers,)})
+    # ---- a handler matches failures only: what is no Concurrent is matched by none ----
+    if case['index'] % 40 == 2:
+        answers = []
+        for handler in list(handler_space(tier))[case['index'] // 40 % 5::5]:
+            cls = handler_class(handler) if handler[0] == 'spec' else Concurrent
+            for plain in (Leaf, Base, Other, Exception, BaseException, KeyError, object, int):
+                answers.append(not issubclass(plain, cls))
+                if plain not in (object, int, BaseException):
+                    answers.append(not isinstance(plain('x'), cls))
+            answers.append(not isinstance(None, cls) and not isinstance(Leaf, cls))
+        stats['pairs'] += len(answers)
+        if not all(answers):
+            violations.append({'mechanism': 'c17:isinstance',
+                               'msg': 'an exception (class) that is no Concurrent is matched by '
+                                      'a Concurrent handler (%d of %d checks wrong)' % (
+                                          answers.count(False), len(answers))})
     # keep one violation per mechanism per case (the space is large)
     seen = {}
     for vio in violations:
